@@ -198,11 +198,17 @@ def sSwizzle (order : List RId) (m : Meta) : Meta :=
 def swapAt {α : Type} [Inhabited α] (k : Nat) (l : List α) : List α :=
   (l.set k (l.getD (k + 1) default)).set (k + 1) (l.getD k default)
 
-def mSwap (k : Nat) (m : Meta) : Option Meta :=
+/-- `emptyBranch`: every fiber of rank `k` is empty, the code then deep-copies the root instead of
+    swapping (tensor.py:1550-1555); the copied fibers still carry the attributes of their old ranks,
+    so `_addFiber` re-installs the *old, unswapped* shape entries as declared ones — `carried` is
+    that shape (`some` iff the operand's shape was authoritative, every rank holds a fiber and
+    every entry is truthy). Otherwise the
+    result's shape is not set: "TBD: Create shape" (tensor.py:1545-1547). -/
+def mSwap (k : Nat) (emptyBranch : Bool) (carried : Option (List Sx)) (m : Meta) : Option Meta :=
   if k + 1 < m.ids.length then
     let ids' := swapAt k m.ids
     some { ids := ids'
-           shape := none                       -- "TBD: Create shape" (tensor.py:1545-1547)
+           shape := if emptyBranch then carried else none
            dflt := m.dflt
            fmts := ids'.map (fun r => m.getFmt r)
            mutable := m.mutable }
